@@ -1,6 +1,7 @@
 /-
   C11 — listby/unlist, groupby/ungroup and pivot/unpivot are lossless regroupings.
-  Property theorems only (helper lemmas: PygProofs/Lemmas/JoinLemmas.lean, GroupLemmas.lean).
+  Property theorems only (helper lemmas: PygProofs/Lemmas/JoinLemmas.lean, GroupLemmas.lean,
+  UnlistLemmas.lean, PivotLemmas.lean, UnpivotLemmas.lean).
 
   `keys` are the per-row keys `d[by]` (one tuple per row); key equality is `cmp · · = .eq`
   (numeric equality of ints and floats, `None = None`, `NaN = NaN`: C07 / C02).
@@ -325,8 +326,9 @@ theorem pivot_row_addressed (t : Table) (x : List String) (y : String) (hn : t.n
 duplicates are aggregated with `last`, the pivot cell addressed by a row's x key and y value holds
 exactly that row's z, and a cell addressed by no row is `None` — so the non-`None` cells that
 `unpivot` lists (`unpivot_rows`: one row per (pivot row, label)) are in one-to-one correspondence
-with the rows of the table (`pivot_row_addressed`, `listby_distinct`).  What is not proved is the
-single multiset equation between `unpivot(pivot(d))` minus its `None` rows and `d`. -/
+with the rows of the table (`pivot_row_addressed`, `listby_distinct`).  (The name is historical: this is
+the cell-value lemma; the single equation between `unpivot(pivot(d))` minus its `None` rows and `d`
+is `unpivot_pivot_multiset` below.) -/
 theorem unpivot_pivot_cells_partial (n nx : Nat) (xp : Nat → List Val) (yc : Nat → Val)
     (zs : List Cell) (hn : n ≠ 0) (hxp : ∀ i, (xp i).length = nx) (gx gy : Grp)
     (hgx : gx ∈ listbyG ((listbyG (xyKeys n xp yc)).map fun g => xPart nx g.1))
